@@ -73,6 +73,7 @@ func runC07(c C07Case, x *vstat.Ctx) error {
 		return err
 	}
 	ops := append([]string{}, base.W.S.EffectOps...)
+	subWrites := append([]int{}, base.W.S.EffectWrites...)
 	if err := c07Final(base, "crash-free run"); err != nil {
 		base.Close()
 		return err
@@ -85,28 +86,30 @@ func runC07(c C07Case, x *vstat.Ctx) error {
 	type pos struct {
 		at  int
 		mid bool
+		k   int // cut before the k-th Atomix write of the call
 	}
 	var all []pos
 	for p := 0; p < k; p++ {
 		if strings.HasPrefix(ops[p], "nb:") {
 			continue // the handler's own write: a crash before it means the request was never accepted
 		}
-		all = append(all, pos{p, false})
-		if ops[p] == "cfg.Update" || ops[p] == "cfg.UpdateStatus" {
-			all = append(all, pos{p, true})
+		all = append(all, pos{p, false, 0})
+		// the configuration store's methods consist of several Atomix writes: cut before each but the first
+		for j := 2; p < len(subWrites) && j <= subWrites[p]; j++ {
+			all = append(all, pos{p, true, j})
 		}
 	}
 	nontrivial := 0
 	for _, p := range all {
 		label := fmt.Sprintf("crash before effect %d/%d (%s)", p.at, k, ops[p.at])
 		if p.mid {
-			label = fmt.Sprintf("crash inside effect %d/%d (%s: values written, record not)", p.at, k, ops[p.at])
+			label = fmt.Sprintf("crash inside effect %d/%d (%s: before Atomix write %d of %d)", p.at, k, ops[p.at], p.k, subWrites[p.at])
 		}
 		x.Logf("=== %s", label)
 		second := -1
 		r, err := Execute(x, c.Sc, nil, func(r *Run) {
 			r.Prep = func(w *World) {
-				w.S.CrashAt, w.S.CrashMid = p.at, p.mid
+				w.S.CrashAt, w.S.CrashMid, w.S.CrashMidK = p.at, p.mid, p.k
 				w.S.ReverseReplay = c.Reverse
 				w.S.DeferReplayed = c.Straggler - 1
 				if c.Pair >= 0 {
